@@ -193,7 +193,7 @@ pub struct RunOut {
     /// callback log with serials translated to model tags (0 = not an object the model knows)
     pub cb_tags: Vec<(char, i64, i64)>,
     /// survivors (key tag, class, value tag) in slot order, when the container could be read
-    pub post: Option<Vec<(i64, u8, i64)>>,
+    pub post: Option<Vec<(i64, crate::elem::Cls, i64)>>,
     pub callbacks: u64,
     pub eq_asked: usize,
     pub cb_log: Vec<(char, u32, u32)>,
@@ -223,7 +223,7 @@ fn run_map<const N: usize>(mode: Mode, t: &Value, panic_at: u64, script: Option<
     let mut cage = Cage::new(Map::<Key, Val, N>::new());
     for e in t["s"].as_array().unwrap() {
         // lying comparisons can create duplicate keys: build such states through the unsafe append path
-        let k = Key::new(e[0].as_u64().unwrap() as u8, e[1].as_u64().unwrap() as u8);
+        let k = Key::new(e[0].as_u64().unwrap() as crate::elem::Cls, e[1].as_u64().unwrap() as u8);
         let v = Val::new(e[2].as_u64().unwrap() as u8);
         if mode == Mode::Adversarial {
             ledger::with(|l| {
@@ -277,7 +277,7 @@ fn run_map<const N: usize>(mode: Mode, t: &Value, panic_at: u64, script: Option<
     let post: Vec<(KO, Option<VO>)> = observe_map(&cage.m).into_iter().map(|(k, v)| (k, Some(v))).collect();
     bind_late(&mut ctx);
     let cb_tags = translate(&ctx, &cb_log);
-    let post_tags: Vec<(i64, u8, i64)> = post.iter().map(|(k, v)| (ctx.tags.ktag(k.serial).max(0), k.class, v.map(|v| ctx.tags.vtag(v.serial).max(0)).unwrap_or(0))).collect();
+    let post_tags: Vec<(i64, crate::elem::Cls, i64)> = post.iter().map(|(k, v)| (ctx.tags.ktag(k.serial).max(0), k.class, v.map(|v| ctx.tags.vtag(v.serial).max(0)).unwrap_or(0))).collect();
     judge_safety(mode, &post, len, &mut ctx, &mut viol_seen, &mut fails);
     // stash (e.g. clones kept by the executor) and held objects go first, then further use
     drop(ctx);
@@ -292,7 +292,7 @@ fn run_set<const N: usize>(mode: Mode, t: &Value, panic_at: u64, script: Option<
     ledger::reset();
     let mut cage = Cage::new(Set::<Key, N>::new());
     for e in t["s"].as_array().unwrap() {
-        let k = Key::new(e[0].as_u64().unwrap() as u8, e[1].as_u64().unwrap() as u8);
+        let k = Key::new(e[0].as_u64().unwrap() as crate::elem::Cls, e[1].as_u64().unwrap() as u8);
         if mode == Mode::Adversarial {
             ledger::with(|l| {
                 l.eq_script = Some(vec![]);
@@ -344,7 +344,7 @@ fn run_set<const N: usize>(mode: Mode, t: &Value, panic_at: u64, script: Option<
     let post: Vec<(KO, Option<VO>)> = observe_set(&cage.m).into_iter().map(|k| (k, None)).collect();
     bind_late(&mut ctx);
     let cb_tags = translate(&ctx, &cb_log);
-    let post_tags: Vec<(i64, u8, i64)> = post.iter().map(|(k, _)| (ctx.tags.ktag(k.serial).max(0), k.class, 0)).collect();
+    let post_tags: Vec<(i64, crate::elem::Cls, i64)> = post.iter().map(|(k, _)| (ctx.tags.ktag(k.serial).max(0), k.class, 0)).collect();
     judge_safety(mode, &post, len, &mut ctx, &mut viol_seen, &mut fails);
     drop(ctx);
     end_viol(mode, &mut viol_seen, &mut fails);
